@@ -30,7 +30,7 @@ def driverMain (model : List String → List String)
     for c in splitCases lines.toList do
       let (ops, impl) := splitImpl c.lines
       let (ok, why) := judge ops impl
-      out.putStrLn (if ok then s!"case {c.n} ok" else s!"case {c.n} FAIL {why}")
+      out.putStrLn (if ok then s!"case {c.n} ok {why}" else s!"case {c.n} FAIL {why}")
     return 0
   | _ =>
     IO.eprintln "usage: model_cxx (model|judge) < cases"
